@@ -49,10 +49,18 @@ SumOver(S, Op(_)) == FoldSet(LAMBDA x, acc : acc + Op(x), 0, S)
 RestrictTo(f, S) == [x \in S |-> f[x]]
 
 Get(f, s) == IF s \in DOMAIN f THEN f[s] ELSE 0
-RKeys(r) == DOMAIN r.reac \cup DOMAIN r.prod
-RNet(r, s) == Get(r.prod, s) - Get(r.reac, s)
+(* a reaction may carry inactive reactants/products (fields ireac, iprod; absent = none): they *)
+(* count for the species it touches, for its net effect and for its "all" stoichiometry, but   *)
+(* not for its active stoichiometry (order, rate law, active edges of the graph)               *)
+IReac(r) == IF "ireac" \in DOMAIN r THEN r.ireac ELSE <<>>
+IProd(r) == IF "iprod" \in DOMAIN r THEN r.iprod ELSE <<>>
+AllReac(r, s) == Get(r.reac, s) + Get(IReac(r), s)
+AllProd(r, s) == Get(r.prod, s) + Get(IProd(r), s)
+RKeys(r) == DOMAIN r.reac \cup DOMAIN r.prod \cup DOMAIN IReac(r) \cup DOMAIN IProd(r)
+RNet(r, s) == AllProd(r, s) - AllReac(r, s)
 IsStoich(f) == \A s \in DOMAIN f : f[s] \in Nat \ {0}
-IsReaction(r) == IsStoich(r.reac) /\ IsStoich(r.prod) /\ \E s \in RKeys(r) : RNet(r, s) # 0
+IsReaction(r) == /\ IsStoich(r.reac) /\ IsStoich(r.prod) /\ IsStoich(IReac(r)) /\ IsStoich(IProd(r))
+                 /\ \E s \in RKeys(r) : RNet(r, s) # 0
 
 NR(sys) == Len(sys.rx)
 RIdx(sys) == 1..Len(sys.rx)
@@ -85,11 +93,48 @@ Categorize(sys) ==
 Mixed(sys) == { s \in Subst(sys) : Produced(sys, s) /\ Consumed(sys, s) }
 
 (* forward/backward pairs *)
-IsReverse(r1, r2) == r1.reac = r2.prod /\ r1.prod = r2.reac
+IsReverse(r1, r2) == \A s \in RKeys(r1) \cup RKeys(r2) :
+    AllReac(r1, s) = AllProd(r2, s) /\ AllProd(r1, s) = AllReac(r2, s)
 IdentifyEquilibria(sys) == { p \in RIdx(sys) \X RIdx(sys) : p[1] < p[2] /\ IsReverse(sys.rx[p[1]], sys.rx[p[2]]) }
 
 Participation(sys, s) == { i \in RIdx(sys) : s \in RKeys(sys.rx[i]) }
 Effect(sys, s) == { <<i, RNet(sys.rx[i], s)>> : i \in { j \in RIdx(sys) : RNet(sys.rx[j], s) # 0 } }
+
+(* THE REACTION GRAPH as an object: a bipartite digraph.  Substance nodes in substance order,   *)
+(* each with the colour class of its category (depleted / accumulated / other); one reaction    *)
+(* node r<i - 1 + rref0> per reaction; an edge substance -> reaction for every reactant and an   *)
+(* edge reaction -> substance for every product, labelled with the coefficient (empty when 1). *)
+(* inact = TRUE takes all stoichiometries, FALSE the active ones only.  Edges are a map         *)
+(* "from->to" |-> <<label, kind>>.                                                             *)
+RId(i, rref0) == "r" \o ToString(i - 1 + rref0)
+EdgeKey(a, b) == a \o "->" \o b
+CoefLabel(n) == IF n = 1 THEN "" ELSE ToString(n)
+ColourClass(sys, s) == LET c == Categorize(sys) IN
+    IF s \in c.accumulated THEN "accumulated" ELSE IF s \in c.depleted THEN "depleted" ELSE "other"
+ReacCoef(r, s, inact) == IF inact THEN AllReac(r, s) ELSE Get(r.reac, s)
+ProdCoef(r, s, inact) == IF inact THEN AllProd(r, s) ELSE Get(r.prod, s)
+GraphEdges(sys, inact, rref0) ==
+    LET ins  == { <<s, i>> \in Subst(sys) \X RIdx(sys) : ReacCoef(sys.rx[i], s, inact) > 0 }
+        outs == { <<s, i>> \in Subst(sys) \X RIdx(sys) : ProdCoef(sys.rx[i], s, inact) > 0 }
+        keyIn(p) == EdgeKey(p[1], RId(p[2], rref0))
+        keyOut(p) == EdgeKey(RId(p[2], rref0), p[1])
+    IN  [k \in { keyIn(p) : p \in ins } \cup { keyOut(p) : p \in outs } |->
+            IF \E p \in ins : keyIn(p) = k
+            THEN LET p == CHOOSE p \in ins : keyIn(p) = k IN <<CoefLabel(ReacCoef(sys.rx[p[2]], p[1], inact)), "reactant">>
+            ELSE LET p == CHOOSE p \in outs : keyOut(p) = k IN <<CoefLabel(ProdCoef(sys.rx[p[2]], p[1], inact)), "product">>]
+Graph(sys, inact, rref0) ==
+    [snodes |-> [i \in 1..Len(sys.ss) |-> [key |-> sys.ss[i], cls |-> ColourClass(sys, sys.ss[i]), label |-> sys.ss[i]]],
+     rnodes |-> [i \in RIdx(sys) |-> [id |-> RId(i, rref0), label |-> RId(i, rref0)]],
+     edges |-> GraphEdges(sys, inact, rref0)]
+
+(* connected components of the UNDIRECTED version of a graph object, from its nodes and edge   *)
+(* keys alone                                                                                   *)
+GNodes(g) == { g.snodes[i].key : i \in DOMAIN g.snodes } \cup { g.rnodes[i].id : i \in DOMAIN g.rnodes }
+GAdj(g, a, b) == EdgeKey(a, b) \in DOMAIN g.edges \/ EdgeKey(b, a) \in DOMAIN g.edges
+RECURSIVE GReach(_, _)
+GReach(g, S) == LET T == S \cup { b \in GNodes(g) : \E a \in S : GAdj(g, a, b) }
+                IN  IF T = S THEN S ELSE GReach(g, T)
+GComponents(g) == { GReach(g, {a}) : a \in GNodes(g) }
 
 (* predicates of the small family used for subsets *)
 Pred(p, r) ==
@@ -168,6 +213,7 @@ QueryExp(sys, kind, arg) ==
                             IF sys.ss[i] = arg.vs THEN arg.vals[v] ELSE arg.d[sys.ss[i]]]]]
       [] kind = "bounds" ->
            [ub |-> [i \in 1..Len(sys.ss) |-> UpperBound(sys, arg, sys.ss[i])]]
+      [] kind = "dot" -> Graph(sys, arg.inact, arg.rref0)
       [] kind = "yields" ->
            [k |-> arg.k]      \* arg.y = N^T arg.k is what the decomposition is asked for
 
@@ -274,6 +320,7 @@ QueryDefined(sys, kind, arg) ==
       [] kind = "conv"   -> Len(sys.ss) > 0 /\ DOMAIN arg.d = Subst(sys) /\ Len(arg.a) = Len(sys.ss) /\ arg.vs \in Subst(sys)
       [] kind = "subset" -> TRUE
       [] kind \in {"shape", "graph"} -> TRUE
+      [] kind = "dot" -> arg.inact \in BOOLEAN /\ arg.rref0 \in Nat
       [] OTHER -> FALSE
 Query(i, kind, arg) ==
     /\ phase = "run" /\ IsSys(i) /\ QueryDefined(ws[i], kind, arg)
@@ -342,6 +389,8 @@ ConvArgs(sys) ==
 GenQuery ==
     /\ Ready
     /\ \/ \E kind \in QueryKinds \cap {"shape", "graph"} : Query(LastSys, kind, <<>>)
+       \/ "dot" \in QueryKinds /\ \E inact \in BOOLEAN :
+              Query(LastSys, "dot", [inact |-> inact, rref0 |-> IF inact THEN 1 ELSE 0])
        \/ "subset" \in QueryKinds /\ \E p \in Preds : Query(LastSys, "subset", p)
        \/ "conv" \in QueryKinds /\ \E a \in ConvArgs(ws[LastSys]) : Query(LastSys, "conv", a)
        \/ "bounds" \in QueryKinds /\ \E c \in [Subst(ws[LastSys]) -> ConcGrid] : Query(LastSys, "bounds", c)
@@ -398,6 +447,19 @@ YieldsUnique ==
         LET h == hist[Len(hist)]  sys == ws[h.i] IN
         \A k \in [RIdx(sys) -> YieldK] :
             (\A s \in SysKeys(sys) : YieldsOf(sys, k, s) = h.arg.y[s]) => k = h.arg.k
+
+(* the exported graph is the reaction graph of the property: its undirected components that   *)
+(* contain a reaction are exactly the groups Split reports; every other component is one        *)
+(* isolated substance                                                                           *)
+DotComponentsMatchSplit ==
+    (out.op = "query" /\ out.kind = "dot" /\ hist[Len(hist)].arg.inact) =>
+        LET h == hist[Len(hist)]  sys == ws[h.i]  g == out.exp
+            rids == { g.rnodes[i].id : i \in DOMAIN g.rnodes }
+            idxOf(id) == CHOOSE i \in DOMAIN g.rnodes : g.rnodes[i].id = id
+            withRx == { C \in GComponents(g) : C \cap rids # {} }
+        IN  /\ { [rx |-> { idxOf(id) : id \in C \cap rids }, ss |-> C \ rids] : C \in withRx } = Split(sys)
+            /\ \A C \in GComponents(g) \ withRx : Cardinality(C) = 1 /\ C \subseteq Subst(sys)
+            /\ GNodes(g) \ rids = Subst(sys)
 
 View == <<ws, pend, out, phase, NMakes, NOps>>
 
